@@ -37,7 +37,8 @@ func (r *npRun) do(what string, f func()) {
 	if p := guardT(f, 5*time.Second); p != "" {
 		if p == "timeout" {
 			// re-run once, alone, before it counts
-			if p2 := guardT(f, 10*time.Second); p2 == "" {
+			// (a slow machine must not look like a hang: the deadline of the second, solitary attempt is generous)
+			if p2 := guardT(f, 90*time.Second); p2 == "" {
 				return
 			}
 		}
